@@ -8,9 +8,12 @@ Import ListNotations.
 Inductive syn :=
 | SynCollectSorted    (* body only appends the key/value to ONE slice, and that slice is sorted later in the same function *)
 | SynCollectUnsorted  (* same, but no sort call on the slice follows: the iteration order escapes *)
-| SynBuildMap         (* body only writes / deletes entries of a map or set declared outside the loop *)
-| SynLookup           (* body has no write outside the loop; may return / break (search) *)
-| SynAccum            (* body only does x += e / x++ on outer variables *)
+| SynBuildMap         (* body only inserts entries (keyed by the visited key, or with a constant value, or set.Add) or only deletes
+                         entries of a map / set declared outside the loop; values never read the destination *)
+| SynBuildMapLoose    (* map writes that are not of that strict form (computed key with computed value, inserts mixed with deletes, …) *)
+| SynMember           (* no write outside the loop; every exit is guarded by `<visited key> == x` or returns constants only *)
+| SynLookup           (* no write outside the loop; some return / break is neither (search whose uniqueness is not syntactic) *)
+| SynAccum            (* body only does x += e / x++ on outer INTEGER variables *)
 | SynEffect.          (* anything else: calls as statements, assignments to outer variables, go/defer/send *)
 
 (** Package scope, decided by the path: cli / client / simulation / testutil / cmd / eth/rpc /
@@ -20,7 +23,8 @@ Inductive scope := ScopeConsensus | ScopeTooling.
 Record site := mk_site {
   s_pkg   : string;       (* package directory relative to the repository root *)
   s_fn    : string;       (* enclosing function, Receiver.Name *)
-  s_ord   : nat;          (* ordinal among the map ranges of that function (source order) — no line numbers *)
+  s_ord   : nat;          (* ordinal among the map ranges of that function (informational; not used for matching) *)
+  s_expr  : string;       (* the ranged expression, variables normalised to "_" *)
   s_type  : string;       (* type of the ranged expression *)
   s_syn   : syn;
   s_scope : scope;
@@ -49,6 +53,7 @@ Record inc_site := mk_inc {
 Definition syn_eqb (a b : syn) : bool :=
   match a, b with
   | SynCollectSorted, SynCollectSorted | SynCollectUnsorted, SynCollectUnsorted | SynBuildMap, SynBuildMap
+  | SynBuildMapLoose, SynBuildMapLoose | SynMember, SynMember
   | SynLookup, SynLookup | SynAccum, SynAccum | SynEffect, SynEffect => true
   | _, _ => false
   end.
